@@ -844,6 +844,28 @@ def explore(body, preemption_bound=None, limit=None, max_steps=20000, names=None
     prefix = ex.next_prefix()
 
 
+def pct_chooser(rng, depth=2, horizon=300):
+  """PCT-style schedules (Burckhardt et al.): random thread priorities, the highest-priority runnable thread runs; at
+  depth-1 random step indices the running thread drops below everybody else. A window of the form 'thread A pauses
+  right after action x, thread B runs until it blocks' is hit with probability ~1/horizon instead of switch_prob^len."""
+  prio = {}
+  changes = sorted(rng.randrange(horizon) for _ in range(max(0, depth - 1)))
+  state = {'n': 0, 'low': 0.0}
+
+  def choose(s, runnable, cur):
+    for t in sorted(runnable, key=lambda t: t.tid):
+      if t.name not in prio:
+        prio[t.name] = 1.0 + rng.random()
+    state['n'] += 1
+    while changes and state['n'] >= changes[0]:
+      changes.pop(0)
+      if cur is not None:
+        state['low'] -= 1.0
+        prio[cur.name] = state['low']
+    return max(runnable, key=lambda t: (prio[t.name], -t.tid))
+  return choose
+
+
 def random_chooser(rng, switch_prob=0.3):
   def choose(s, runnable, cur):
     order = sorted(runnable, key=lambda t: t.tid)
